@@ -4,7 +4,7 @@
 package keygen
 
 // ---- round state invariants (established by the start function / the previous Finalize)
-//@ pred hok(h *round.Helper) := h != nil && h.hash != nil && h.hash.h != nil && h.info.Group != nil && !held(h.mtx)
+//@ pred hok(h *round.Helper) := h != nil && h.info.FinalRoundNumber >= 3 && h.hash != nil && h.hash.h != nil && h.info.Group != nil && !held(h.mtx)
 //@ pred r1ok(r *round1) := r != nil && hok(r.Helper) && r.privateShare != nil && r.publicKey != nil && r.verificationShares != nil && r.threshold >= 0
 //@ pred r2ok(r *round2) := r != nil && r1ok(r.round1) && r.f_i != nil && r.Phi != nil && r.ChainKeys != nil && r.ChainKeyCommitments != nil
 //@ pred r3ok(r *round3) := r != nil && r2ok(r.round2) && r.shareFrom != nil
@@ -73,6 +73,8 @@ package keygen
 //@   loop 2: invariant fresh(verificationSharesCopy)
 // (induction on the session object) the first round starts from the state invariant its methods assume
 //@   ensures result1 == nil ==> (typeis(result0, *round1) && r1ok(result0.(*round1)))
+// (C04, C05) the announced final round number covers every round the session can reach, the identifiable-abort rounds included
+//@   ensures[C04,C05] result1 == nil ==> result0.(*round1).Helper.info.FinalRoundNumber >= 3
 
 // ---- derivation (C14): a new configuration; the parent is left untouched; share + adjust, Y + adjust*G,
 // Y_j + adjust*G for every party, the given (or inherited) 32-byte chain key.
@@ -139,6 +141,9 @@ package keygen
 // threshold and of the session's constant-term shape, 32-byte chain keys, non-nil shares) nothing panics -- in
 // particular polynomial.Sum cannot fail, so the explicit panic(err) is unreachable.
 //@ func (*round3).Finalize
+// (C04, C05) the round handed to the handler is one the session announced: its number is within the final round
+// number, so the handler holds a queue for it and waits for every party before finalizing it
+//@   ensures[C04,C05] result1 == nil ==> result0.Number() <= old(r.Helper.info.FinalRoundNumber)
 //@   nopanic[C05]
 //@   requires r3ok(r)
 //@   requires forall(j, party.ID, inslice(r.Helper.partyIDs, j) ==> len(r.ChainKeys[j]) == 32)
@@ -161,6 +166,9 @@ package keygen
 //@   ensures typeis(result0, *round.Output) ==> result0.(*round.Output).Result != nil
 
 //@ func (*round2).Finalize
+// (C04, C05) the round handed to the handler is one the session announced: its number is within the final round
+// number, so the handler holds a queue for it and waits for every party before finalizing it
+//@   ensures[C04,C05] result1 == nil ==> result0.Number() <= old(r.Helper.info.FinalRoundNumber)
 //@   nopanic[C05]
 //@   requires r2ok(r) && out != nil && !closed(out) && r.f_i.group != nil && each(r.f_i.coefficients, c, c != nil)
 // (round.NewSession: every identifier of the session has a non-zero scalar, and the session contains this party)
@@ -174,6 +182,9 @@ package keygen
 //@   ensures typeis(result0, *round.Abort) ==> result0.(*round.Abort).Err != nil
 //@   ensures typeis(result0, *round.Output) ==> result0.(*round.Output).Result != nil
 //@ func (*round1).Finalize
+// (C04, C05) the round handed to the handler is one the session announced: its number is within the final round
+// number, so the handler holds a queue for it and waits for every party before finalizing it
+//@   ensures[C04,C05] result1 == nil ==> result0.Number() <= old(r.Helper.info.FinalRoundNumber)
 //@   nopanic[C05]
 //@   requires r1ok(r) && out != nil && !closed(out)
 // (induction on the session object) on success the next round starts from the state invariant its methods assume
